@@ -4,21 +4,24 @@
 # worktree of /repo's HEAD under /tmp (removed afterwards) with its own output directory, so
 # evidence of the real tree is never overwritten and jobs can run side by side.
 # Expects exit 1 with a VIOLATION line from every check. One line per seed and a summary.
+# Relocatable: works from a snapshot of the tree (vp run -- tools/mutation_audit.sh -j 2), so the
+# harness sources it builds cannot change under it.
 # usage: tools/mutation_audit.sh [-j N] [seed-dir-name ...]
-cd /verif || exit 2
+V=$(cd "$(dirname "$0")/.." && pwd)
+cd $V || exit 2
 J=1
 [ "$1" = "-j" ] && { J=$2; shift 2; }
 seeds=${*:-$(ls seeded)}
 R=/tmp/audit.$$
 mkdir -p $R
 one() {
-	s=$1; d=/verif/seeded/$s; W=$R/w.$s; O=$R/o.$s
+	s=$1; d=$V/seeded/$s; W=$R/w.$s; O=$R/o.$s
 	[ -s $d/patch.diff ] || return
 	id=$(python3 -c "import json;m=json.load(open('$d/meta.json'));print(m.get('audit_property',m['property']))")
 	git -C /repo worktree add -q --detach $W HEAD 2>/dev/null || { echo "$s ($id): cannot create worktree" > $R/r.$s; return; }
 	if git -C $W apply $d/patch.diff 2>/dev/null; then
 		mkdir -p $O
-		VERIF_REPO=$W VERIF_OUT=$O /verif/bin/check $id quick > $O/out 2>&1; rc=$?
+		VERIF_REPO=$W VERIF_OUT=$O $V/bin/check $id quick > $O/out 2>&1; rc=$?
 		nv=$(grep -ac '^VIOLATION' $O/out)
 		if [ $rc -eq 1 ] && [ $nv -gt 0 ]; then echo "$s ($id): DETECTED ($nv violation signatures)" > $R/r.$s
 		else { echo "$s ($id): NOT DETECTED (exit $rc)"; tail -3 $O/out | cut -c1-200; } > $R/r.$s; fi
